@@ -427,11 +427,17 @@ def run_proof(proof, tier, keep=False, backend=None):
         # protects runs in which everything "passed"
         any_failure = any(ob["kind"] != "cover" and ob["status"] == "FAILURE" for ob in res["obligations"])
         ncover = 0
+        res["unreachable_covers"] = []
         for ob in res["obligations"]:
             if ob["kind"] == "cover":
                 ncover += 1
-                if ob["status"] != "FAILURE" and not degraded and not any_failure:
-                    raise Undecided("cover point unreachable (vacuous precondition?): %s" % ob["desc"])
+                if ob["status"] != "FAILURE" and not degraded:
+                    if not any_failure:
+                        raise Undecided("cover point unreachable (vacuous precondition?): %s" % ob["desc"])
+                    # next to a failure: decided per property by the caller (a failure attributed to ANOTHER property
+                    # must not switch the guard off for this one: DFCC checks are assert-then-assume, everything behind a
+                    # failed precondition is assumed away)
+                    res["unreachable_covers"].append(ob["desc"])
         if ncover < proof.get("min_covers", 1) and not degraded and not any_failure:
             raise Undecided("fewer cover points than required (%d < %d)" % (ncover, proof.get("min_covers", 1)))
         # expected failures (canary mode)
